@@ -10,6 +10,24 @@ PBT = "Hypothesis property-based testing against an independent reference model"
 
 CHECKS = [
     {
+        "id": "C09",
+        "technique": PBT + " (reference mask decoder on pinned bit offsets with pinned PRN numbering and RINEX code tables) + complete single-bit mask enumeration",
+        "text": "All 49 MSM types x generated satellite / signal / cell masks x both label options, plus every single-bit satellite x signal mask pair per constellation; counts, PRN labels, satellite-major cell mapping, RINEX codes and the N/A marker are judged by a reference decoder that reads the masks at pinned bit offsets and uses tables written out in the harness.",
+        "note": "Pins are the harness's transcription of RTCM 10403.3 (cross-checked with RTKLIB); band labels are checked for consistency only.",
+    },
+    {
+        "id": "C16",
+        "technique": PBT + " metamorphic relation between label options across three entry points",
+        "text": "Generated MSM payloads of all 49 types parsed under label options 1, 2, 0 and True through RTCMMessage, the static parser and a stream reader: only CELLSIG_* may differ, True == 1, each signal ID keeps the label of a single-signal probe message; generated non-MSM messages of every identity are identical under all options.",
+        "note": "What option value 0 selects is not documented; only 'CELLSIG_* at most' is required of it.",
+    },
+    {
+        "id": "C18",
+        "technique": PBT + " (helper output vs getattr on the message and vs the independent interpreter) + complete sweep of reserved MSM numbers",
+        "text": "parse_msm on generated MSM messages of all 49 types must agree entry by entry with the flat attributes and the interpreter's values, with the pinned epoch field; parse_4076_201 on generated 4076_201 messages (1-4 layers, up to 153 coefficients) must return exactly the decoded cosine / sine lists; on every other identity and every number in 1070..1229 without a definition both helpers must return None without raising.",
+        "note": "Constellation name strings are not pinned.",
+    },
+    {
         "id": "C01",
         "technique": PBT + " (recording / fault-injecting stream double + independent frame validator)",
         "text": "Generated adversarial streams (valid, bit-damaged, truncated and decoy frames, frames nested in UBX/NMEA/other frames, sync-dense noise) crossed with generated scripts of short and empty reads and all error modes; every delivered pair must be a well-formed frame by the harness's own validator, a contiguous in-order non-overlapping slice of the bytes handed out, with matching payload and message number. Sampled search.",
